@@ -112,6 +112,10 @@ func collect(sc *sims.Scenario, out *sims.Outcome, pos int) evidence {
 func judge(r *core.Run, c *Case, out *sims.Outcome) []sims.CanonCert {
 	r.Eval(1)
 	sc := &c.Sc
+	if out.Stuck {
+		r.Inconclusive("a call did not return within the watchdog (C09 / C17 decide that): " + c.desc())
+		return nil
+	}
 	if out.Panic != nil {
 		r.Count("panicked", 1)
 		return nil
